@@ -13,6 +13,14 @@ import json
 import os
 import sys
 
+try:  # the transcendental search oracle needs mpmath, which lives in the tooling venv
+    import mpmath  # noqa: F401
+except Exception:
+    import shutil
+    vt = shutil.which("python3-vt")
+    if vt and os.environ.get("ARP_REEXEC") != "1":
+        os.environ["ARP_REEXEC"] = "1"
+        os.execv(vt, [vt] + sys.argv)
 sys.path.insert(0, os.path.dirname(os.path.abspath(__file__)))
 from vlib import engine, props  # noqa: E402
 
